@@ -85,6 +85,16 @@ type dkg struct {
 	tpkRaw   [][]byte       // ThresholdPK() as reported by each party
 	polys    [][][]*big.Int // polys[k][j] = coefficients dealt by party k+1 for x (j=0) and y_{j-1}
 	timedOut bool
+	ids      []uint16 // party identifiers in rank order (rank i+1 <-> ids[i]); 1..N unless stated otherwise
+}
+
+// idsOf maps ranks (1-based positions in the party list) to party identifiers.
+func (d *dkg) idsOf(ranks []uint16) []uint16 {
+	res := make([]uint16, len(ranks))
+	for k, r := range ranks {
+		res[k] = d.ids[int(r)-1]
+	}
+	return res
 }
 
 func ids(n int) []uint16 {
@@ -99,25 +109,35 @@ func ids(n int) []uint16 {
 // polynomials one after the other from per-party seeded streams (a party's draws all happen before its first
 // message), after that they run concurrently.  order permutes the start order of the parties.
 func runDKG(N, T, L int, seed uint64, order []int) *dkg {
-	d := &dkg{N: N, T: T, L: L, parties: make([]*ps.TPS, N), shares: make([][]byte, N), errs: make([]error, N),
+	return runDKGIDs(ids(N), T, L, seed, order)
+}
+
+// runDKGIDs: the same with an arbitrary list of distinct party identifiers (the rank of a party is its position).
+func runDKGIDs(idl []uint16, T, L int, seed uint64, order []int) *dkg {
+	N := len(idl)
+	index := map[uint16]int{}
+	for i, id := range idl {
+		index[id] = i
+	}
+	d := &dkg{ids: idl, N: N, T: T, L: L, parties: make([]*ps.TPS, N), shares: make([][]byte, N), errs: make([]error, N),
 		panics: make([]string, N), tpkRaw: make([][]byte, N), polys: make([][][]*big.Int, N)}
 	sent := make([]chan struct{}, N)
 	for i := 0; i < N; i++ {
-		d.parties[i] = &ps.TPS{Curve: curve, Party: uint16(i + 1), Logger: nolog{}, MessageLength: L}
+		d.parties[i] = &ps.TPS{Curve: curve, Party: idl[i], Logger: nolog{}, MessageLength: L}
 		sent[i] = make(chan struct{}, 4*N)
 	}
 	for i := 0; i < N; i++ {
 		i := i
-		d.parties[i].Init(ids(N), T, func(msg []byte, isBroadcast bool, to uint16) {
+		d.parties[i].Init(append([]uint16{}, idl...), T, func(msg []byte, isBroadcast bool, to uint16) {
 			cp := append([]byte{}, msg...)
 			if isBroadcast {
 				for j := 0; j < N; j++ {
 					if j != i {
-						d.parties[j].OnMsg(cp, uint16(i+1), true)
+						d.parties[j].OnMsg(cp, idl[i], true)
 					}
 				}
 			} else {
-				d.parties[int(to)-1].OnMsg(cp, uint16(i+1), false)
+				d.parties[index[to]].OnMsg(cp, idl[i], false)
 				sent[i] <- struct{}{}
 			}
 		})
